@@ -6,7 +6,7 @@ from ..paths import REPO
 
 RULE = ("the extension is BUILT FROM /repo's current Debyer.pyx on every run (cython + gcc -fopenmp into a scratch directory that is removed afterwards); "
         "_chunk(n, c) for every n in 0..40 x c in 0..n+4 compared EXACTLY with the Lean model (rows, refusal) and with 'the rows partition range(n) in order'; "
-        "calculate() on random trajectories: 1-3 frames with their own boxes, 1-14 sites per selection, random molecule labels (not contiguous, several molecules, also shifted beyond the 32-bit range: 2^31, 2^32+5, -2^31-7, 1e12, 2^62), long trajectories of 129-300 frames each with its own box, "
+        "calculate() on random trajectories: 1-3 frames with their own boxes, 1-14 sites per selection, random molecule labels (not contiguous, several molecules, also shifted beyond the 32-bit range: 2^31, 2^32+5, -2^31-7, 1e12, 2^62), long trajectories of 129-300 frames each with its own box, label arrays and coordinates also as non-contiguous views, coordinates also in metres / 1e-10 m / 1e3 units with wavenumbers scaled inversely, "
         "self and cross correlations, coordinate families {wrapped into the box, centred, unwrapped random walks spanning several box lengths, collinear rods, "
         "coincident sites, separations of exactly half a box}, Domain length 2-8 from dk, num_chunks 1..n+3 (also more chunks than sites), OpenMP thread counts "
         "{1,2,3,4,8} set through libgomp; result compared with the Lean model executed on the same float32-rounded inputs and with an independent float64 "
@@ -130,6 +130,17 @@ def run_impl(mod, case, c=None, threads=None, perm=None):
     p1 = np.array([np.array(fr['R1'], dtype=ft).reshape(-1, 3) for fr in case['frames']])
     p2 = p1 if self_ else np.array([np.array(fr['R2'], dtype=ft).reshape(-1, 3) for fr in case['frames']])
     box = np.array([fr['L'] for fr in case['frames']], dtype=ft)
+    lv = case.get('lab_view')
+    if lv and perm is None:
+        # the label arrays as legal non-contiguous views: every second entry of a longer array, or a column of a per-site topology table
+        def view(m, how):
+            if how == 'stride2':
+                big = np.empty(2 * len(m), dtype=np.int64); big[0::2] = m; big[1::2] = m[::-1] + 1; return big[0::2]
+            tbl = np.empty((len(m), 3), dtype=np.int64); tbl[:, 0] = np.arange(len(m)); tbl[:, 1] = m; tbl[:, 2] = m[::-1] + 1; return tbl[:, 1]
+        m1 = view(m1, lv); m2 = m1 if self_ else view(m2, lv)
+        # and the coordinates as a view of a longer trajectory array (every second frame of a padded array)
+        pad = np.zeros((2 * p1.shape[0],) + p1.shape[1:], dtype=p1.dtype); pad[0::2] = p1; pad[1::2] = 7.5; p1 = pad[0::2]
+        if self_: p2 = p1
     if perm is not None:
         s1, s2 = perm
         p1 = p1[:, s1, :]; m1 = m1[s1]
@@ -266,8 +277,17 @@ def gen_calc(rng, big=False, many=False):
         if not self_: fr['R2'] = gen_positions(rng, fam if rng.random() < 0.8 else 'wrapped', n2, L)
         frames.append(fr)
     c = rng.choice([1, 2, 3, 4, n1, n1 + 1, n1 + 3, max(1, n1 // 2), max(1, n1 - 1)])
-    return {'self': self_, 'M1': M1, 'M2': None if self_ else M2, 'frames': frames, 'fam': fam,
-            'nbins': rng.randint(2, 3) if many else rng.randint(2, 8), 'dk': float('%.5g' % (10 ** rng.uniform(-1.3, 0.5))), 'lab_off': rng.choice(LAB_OFF),
+    dk = float('%.5g' % (10 ** rng.uniform(-1.3, 0.5)))
+    unit = rng.choice([1.0, 1.0, 1.0, 1e-9, 1e-10, 1e3])
+    if unit != 1.0 and fam != 'rod':
+        # the same configuration in other units of length (metres, angstrom-in-metres, picometres): coordinates and boxes x u, wavenumbers / u
+        for fr in frames:
+            for key in ('L', 'R1', 'R2'):
+                if key in fr: fr[key] = [float('%.7g' % (v * unit)) for v in fr[key]]
+        dk = float('%.5g' % (dk / unit))
+    else: unit = 1.0
+    return {'self': self_, 'unit': unit, 'lab_view': rng.choice([None, None, 'stride2', 'column']), 'M1': M1, 'M2': None if self_ else M2, 'frames': frames, 'fam': fam,
+            'nbins': rng.randint(2, 3) if many else rng.randint(2, 8), 'dk': dk, 'lab_off': rng.choice(LAB_OFF),
             'c': c, 'threads': rng.choice([1, 2, 3, 4, 8]),
             'alt_c': sorted(set([1, rng.randint(1, n1 + 2), n1])), 'alt_threads': sorted(set([1, rng.choice([2, 3, 4, 8])])), 'pseed': rng.randrange(10 ** 6), 'f32': rng.random() < 0.3}
 
@@ -305,5 +325,5 @@ def generate(ctx):
         ctx.case('calc', case, case['c'] > 1 and case['threads'] > 1,
                  tags=['fam:' + case['fam'], 'self' if case['self'] else 'cross', 'frames:%d' % len(case['frames']), 'threads:%d' % case['threads'],
                        'chunks:' + ('1' if case['c'] == 1 else 'gt-n' if case['c'] > len(case['M1']) else 'le-n'), 'mols:%d' % len(set(case['M1'])),
-                       'labels:' + ('small' if case['lab_off'] == 0 else 'beyond-int32')])
+                       'labels:' + ('small' if case['lab_off'] == 0 else 'beyond-int32'), 'unit:%g' % case['unit'], 'label-array:%s' % (case['lab_view'] or 'contiguous')])
         suite_calc(ctx, case)
